@@ -192,6 +192,11 @@ impl Connection {
     #[verifier::external_body]
     pub fn prepare_cached(&self, q: &str) -> (r: std::result::Result<Statement, rusqlite::Error>) { unimplemented!() }
 }
+impl Node {
+    /// removes the text of the rows about to be deleted from the full-text index (SQL; under contract in u14_index): touches no mark
+    #[verifier::external_body]
+    pub fn delete_from_index<P>(query: &str, params: P, conn: &Connection) -> (r: std::result::Result<(), rusqlite::Error>) { unimplemented!() }
+}
 impl NodeDeletionEntry {
     /// stores the tombstone (Writeable::write: SQL); the row is not altered
     #[verifier::external_body]
